@@ -22,16 +22,9 @@ def _skips(stmts):
 
 
 def _guards(stmts, test, env):
-    """If statements (elif included) below ``stmts`` whose test has the shape ``test``"""
-    p = M.pat(test)
-    out = [n for n in A.walk_body(stmts) if isinstance(n, ast.If) and p.matches(n.test, env)]
-    if not out and test.startswith("not "):
-        # canonical form: `if not c: A elif ...` is held as `if c: ... else: A` — present the else branch as the guarded body
-        q = M.pat(test[4:])
-        for n in A.walk_body(stmts):
-            if isinstance(n, ast.If) and n.orelse and q.matches(n.test, env):
-                out.append(ast.If(test=ast.UnaryOp(ast.Not(), n.test), body=n.orelse, orelse=[]))
-    return out
+    """If statements (elif included) below ``stmts`` that test ``test`` — in either polarity / branch order; each is presented
+    as `if <test>: <what runs when it holds>`"""
+    return [ast.copy_location(ast.If(test=n.test, body=list(when_true), orelse=list(when_false)), n) for n, when_true, when_false, _e in M.guarded(stmts, test, env)]
 
 
 def _effects(stmts, names=("mods", "moved")):
@@ -66,9 +59,10 @@ def run(ctx):
     gm = M.one(lp.node, "if $m is not None:\n    $files.append($_)", E) if lp else None
     if gm:
         E = dict(gm.env)
-    km = M.one(lp.node, "if $m is not None:\n    $key = $$kv\n    $files.append(($key, $fn))", E) if lp else None
-    ife = km.env["$kv"] if km else None
-    has_key = ctx.check("R1", sd, km is not None and isinstance(ife, ast.IfExp) and len(A.assignments(sd.node, km["key"])) == 1, "chronological-key-present", "update files get a (year, quarter) sort key",
+    km = M.one(lp.node, "if $m is not None:\n    ...\n    $files.append(($key, $fn))", E) if lp else None
+    then_ = (M.arms(km.node, "$m is not None", E) or (km.node.body,))[0] if km else []
+    ife = A.ifexp_of(then_, km["key"]) if km else None
+    has_key = ctx.check("R1", sd, km is not None and isinstance(ife, ast.IfExp) and len(A.assignments(sd.node, km["key"])) in (1, 2), "chronological-key-present", "update files get a (year, quarter) sort key",
                         "_scan_directory computes no chronological sort key: quarter-named update files are applied in listing / plain name order (1Q-2020 before 4Q-2019)", node=sd.node)
     if has_key:
         _key_rules(ctx, sd, ife, regs, E)
@@ -76,7 +70,7 @@ def run(ctx):
     rm = M.one(sd.node, "return [$f2 for $k2, $f2 in sorted($files)]", km.env) if km else None
     ctx.check("R1", sd, rm is not None and rm["f2"] != rm["k2"] and len(rets) == 1, "sorted-by-key", "files are returned sorted by (key, name): listing order cannot matter")
     apps = M.find(sd.node, "$files.append($_)", E) if gm else []
-    guarded = [a for a in apps if any(isinstance(p, ast.If) and M.pat("$m is not None").matches(p.test, E) and any(A.contains_node(s, a.node) for s in p.body) for p in A.parents(a.node))]
+    guarded = [a for a in apps if any(isinstance(p, ast.If) and M.arms(p, "$m is not None", E) is not None and any(A.contains_node(s, a.node) or s is a.node for s in M.arms(p, "$m is not None", E)[0]) for p in A.parents(a.node))]
     ctx.check("R1", sd, bool(apps) and len(guarded) == len(apps), "misnamed-skipped", "files not matching the regex are skipped")
     ctx.floor("R1", 6)
 
